@@ -4,7 +4,8 @@
 //!   `<hex input bytes> <hex write_string output> <hex darklua-read-back or "ERR">`
 
 use hutil::{arg_u64, hex, Rng};
-use darklua_core::nodes::StringExpression;
+use darklua_core::nodes::{BinaryNumber, DecimalNumber, HexNumber, NumberExpression, StringExpression};
+use darklua_core::verif_hooks::generator_utils::write_number;
 use darklua_core::verif_hooks::generator_utils::write_string;
 
 fn emit(value: &[u8]) {
@@ -14,6 +15,33 @@ fn emit(value: &[u8]) {
         Err(_) => "ERR".to_owned(),
     };
     println!("{} {} {}", hex(value), hex(written.as_bytes()), back);
+}
+
+fn number_to_coq(number: &NumberExpression) -> String {
+    match number {
+        NumberExpression::Decimal(d) => format!(
+            "(NDec {} {})",
+            d.compute_value().to_bits(),
+            match (d.get_exponent(), d.is_uppercase()) {
+                (Some(e), Some(u)) => format!("(Some (({})%Z, {}))", e, u),
+                _ => "None".to_owned(),
+            }
+        ),
+        NumberExpression::Hex(h) => format!(
+            "(NHex {} {} {})",
+            h.get_raw_integer(),
+            h.is_x_uppercase(),
+            match (h.get_exponent(), h.is_exponent_uppercase()) {
+                (Some(e), Some(u)) => format!("(Some ({}, {}))", e, u),
+                _ => "None".to_owned(),
+            }
+        ),
+        NumberExpression::Binary(b) => format!("(NBin {} {})", b.get_raw_value(), b.is_b_uppercase()),
+    }
+}
+
+fn emit_number(number: &NumberExpression) {
+    println!("{}\t{}", number_to_coq(number), hex(write_number(number).as_bytes()));
 }
 
 const INTERESTING: &[u8] = &[
@@ -157,6 +185,95 @@ fn main() {
             }
             for _ in 0..n {
                 emit(&structured(&mut rng));
+            }
+        }
+        "numbers" => {
+            // `<coq number term>\t<written text hex>` for write_number
+            let seed = arg_u64(args, "--seed", 1);
+            let n = arg_u64(args, "--n", 1000);
+            let mut rng = Rng::new(seed ^ 0x9999);
+            let mut values: Vec<f64> = vec![
+                0.0, -0.0, 1.0, -1.0, 0.1, 0.5, 1e15, 1e16, 1e21, 1e22, 1e23, 1e100, 1e-5, 1e-7, 1e-300, 5e-324,
+                2.2250738585072014e-308, 2.225073858507201e-308, 1.7976931348623157e308, f64::NAN, f64::INFINITY,
+                f64::NEG_INFINITY, 9007199254740992.0, 9007199254740993.0, 9007199254740991.0, 9007199254740994.0,
+                4503599627370496.0, 0.30000000000000004, 123456789012345680.0, 1.5, 255.0, 1e-10, 123.456,
+                1793956054482776061e9, 8.41e21, 2e-20, 5e-324 * 3.0,
+            ];
+            for k in 0..64 {
+                values.push(2f64.powi(k));
+                values.push(2f64.powi(-k));
+            }
+            for k in -30..30 {
+                values.push(10f64.powi(k));
+            }
+            for _ in 0..n {
+                let v = match rng.below(5) {
+                    0 => f64::from_bits(rng.next()),
+                    1 => (rng.below(1_000_000) as f64) / 1000.0,
+                    2 => rng.below(100_000) as f64,
+                    3 => (rng.next() >> 4) as f64 * 10f64.powi(rng.below(40) as i32 - 20),
+                    _ => f64::from_bits(rng.next() & 0x7fef_ffff_ffff_ffff),
+                };
+                values.push(v);
+                if rng.chance(1, 3) {
+                    values.push(-v);
+                }
+            }
+            for v in &values {
+                emit_number(&NumberExpression::from(DecimalNumber::new(*v)));
+                if v.is_finite() {
+                    for e in [-25i64, -10, -9, -3, -1, 0, 1, 2, 3, 9, 10, 22, 25, 300, -300] {
+                        if rng.chance(1, 3) {
+                            emit_number(&NumberExpression::from(DecimalNumber::new(*v).with_exponent(e, rng.chance(1, 2))));
+                        }
+                    }
+                }
+            }
+            for i in [0u64, 1, 9, 10, 15, 16, 255, 256, 4096, u32::MAX as u64, 1 << 53, (1 << 53) + 1, u64::MAX, u64::MAX - 1] {
+                emit_number(&NumberExpression::from(HexNumber::new(i, false)));
+                emit_number(&NumberExpression::from(HexNumber::new(i, true)));
+                emit_number(&NumberExpression::from(BinaryNumber::new(i, false)));
+                emit_number(&NumberExpression::from(BinaryNumber::new(i, true)));
+            }
+        }
+        "parse" => {
+            // literal texts through NumberExpression::from_str: `<text hex>\t<coq number term or ERR>`
+            let seed = arg_u64(args, "--seed", 1);
+            let n = arg_u64(args, "--n", 1000);
+            let mut rng = Rng::new(seed ^ 0x7777);
+            let mut texts: Vec<String> = [
+                "0", "1", "10", "007", "1.", ".5", "0.5", "1e5", "1E5", "1e+5", "1e-5", "1.5e3", "1_000", "1__0", "_1", "1_",
+                "0x10", "0X1F", "0xff", "0x_ff", "0xF_F", "0x", "0xg", "0b101", "0B11", "0b_1", "0b1_0", "0b", "0b2",
+                "1e", "e5", "1e5e6", "1e_5", "1_e5", "1e5_", "1_.5", "._5", "1._5", "1.5_", "0x1p4", "0x1P4", "0xAp2",
+                "0x1p", "0x1p-1", "0x1p+2", "0x_1p1", "9007199254740993", "18446744073709551615", "0xffffffffffffffff",
+                "0x10000000000000000", "0b1111111111111111111111111111111111111111111111111111111111111111",
+                "1e308", "1e309", "1e-324", "4.9e-324", "2.4703282292062327e-324", "2.4703282292062328e-324",
+                "0.1", "0.30000000000000004", "123456789012345678901234567890", "1e400", "inf", "nan", "infinity", "+1", "-1",
+                "1_0.5_0e1_0", "0x1e5", "0b1e5", "0e0", "00x10", "0_x10", "1e+_5", "1_-5", "1e_+5", "١", "1 ", " 1",
+            ]
+            .iter()
+            .map(|s| s.to_string())
+            .collect();
+            let alphabet: &[u8] = b"0123456789_.eExXbBpP+-aAfF";
+            for _ in 0..n {
+                let len = 1 + rng.below(8);
+                let mut t = String::new();
+                if rng.chance(1, 3) {
+                    t.push_str(*rng.pick(&["0x", "0b", "0X", "0B", "0", "1", "."]));
+                }
+                for _ in 0..len {
+                    t.push(*rng.pick(alphabet) as char);
+                }
+                texts.push(t);
+            }
+            for t in &texts {
+                let result = std::panic::catch_unwind(|| t.parse::<NumberExpression>());
+                let out = match result {
+                    Ok(Ok(number)) => number_to_coq(&number),
+                    Ok(Err(_)) => "ERR".to_owned(),
+                    Err(_) => "PANIC".to_owned(),
+                };
+                println!("{}\t{}", hex(t.as_bytes()), out);
             }
         }
         _ => {
